@@ -107,10 +107,13 @@ func (w *c06World) proposer(r reporter, nEvMenu []int, lean bool) {
 			}
 			nPending++
 		}
-		// what the implementation will budget (only to place the mempool content around its boundary)
+		// what a correct proposer has to budget: the block carries the previous commit, one slot per member of the previous set (the
+		// harness used the size of the current set here until the repair of the proposer's budget; with a validator removal and a
+		// tight Block.MaxBytes that let a configuration through in which no block fits at all — reported by the thorough tier as a
+		// proposer panic, a false alarm: such configurations are counted as budget-negative and skipped)
 		_, evSize := w.r1.evpool.PendingEvidence(S.ConsensusParams.Evidence.MaxBytes)
 		var D int64
-		if err, _ := c06Safe(func() error { D = types.MaxDataBytes(maxBytes, evSize, S.Validators.Size()); return nil }); err != nil {
+		if err, _ := c06Safe(func() error { D = types.MaxDataBytes(maxBytes, evSize, w.lastCommit.Size()); return nil }); err != nil {
 			r.Add("diag_proposer_budget_negative", 1)
 			r.Outcome("proposer:budget-negative")
 			continue
